@@ -50,6 +50,45 @@ fn run(ctx: &Ctx) {
         v
     });
     ctx.run_enum("locality_huge", locality_huge, false, "every parser family x 4 suffixes of 10 MiB and more behind a valid structure", cases.collect::<Vec<_>>().into_iter());
+    // every self-delimiting family at the start of a buffer of 4 GiB + 1 MiB (zero pages that are never touched: only address space is
+    // needed): lengths that travel through a 32-bit integer somewhere show up here and nowhere else
+    let per = ctx.pick(4, 24);
+    ctx.run_fn("locality_4gib", false, "every self-delimiting parser family, generated valid structures at the start of zero-filled buffers of 2^32 + k bytes (twelve k from 0 to 2^20)", move |obs| {
+        const N: usize = (1usize << 32) + (1 << 20);
+        let mut big: Vec<u8> = Vec::new();
+        if big.try_reserve_exact(N).is_err() {
+            obs.class("address-space-unavailable");
+            obs.sample(json!({"skipped": "4 GiB of address space could not be reserved"}));
+            return Ok(());
+        }
+        big = vec![0u8; N];
+        let fams = families();
+        for (fi, fam) in fams.iter().enumerate() {
+            for k in 0..per {
+                let tape = vmodel::tape::fill(seed ^ (0xC064 + ((fi as u64) << 8) + k), 300);
+                let mut t = Tape::new(&tape);
+                let b = (fam.gen)(&mut t).buf;
+                match (fam.declared)(&b) {
+                    Some(d) if d <= b.len() && !b.is_empty() => {}
+                    _ => continue,
+                }
+                big[..b.len()].copy_from_slice(&b);
+                // total lengths of 2^32 + k for small k: what is left of the buffer is congruent to a small number modulo 2^32 at
+                // some point inside the structure
+                let mut r = Ok(());
+                for k in [0usize, 1, 2, 3, 5, 16, 100, 1000, b.len().saturating_sub(1), b.len(), b.len() + 1, 1 << 20] {
+                    r = check_pair_on(fam, &b, &big[..(1usize << 32) + k], "4GiB-buffer", obs);
+                    if r.is_err() {
+                        break;
+                    }
+                }
+                big[..b.len()].iter_mut().for_each(|x| *x = 0);
+                r?;
+                obs.class(fam.name);
+            }
+        }
+        Ok(())
+    });
     ctx.run_tape("defrag", defrag, ctx.pick(48_000, 200_000), 1200);
     ctx.run_tape("locality_raw", locality_raw, ctx.pick(120_000, 400_000), 96);
 }
@@ -499,13 +538,18 @@ fn locality_raw(t: &mut Tape, obs: &mut Obs) -> R {
 /// the locality / provenance relation for every parser of one family on (b, b ++ x)
 fn check_pair(fam: &Family, b: &[u8], x: &[u8], form: &str, obs: &mut Obs) -> R {
     let b = b.to_vec();
-    let x = x.to_vec();
     let mut bx = b.clone();
-    bx.extend_from_slice(&x);
-    let declared = (fam.declared)(&b);
+    bx.extend_from_slice(x);
+    check_pair_on(fam, &b, &bx, form, obs)
+}
+
+/// the same on buffers the caller owns: `bx` starts with the bytes of `b` (a separate buffer) and goes on
+fn check_pair_on(fam: &Family, b: &[u8], bx: &[u8], form: &str, obs: &mut Obs) -> R {
+    let x = &bx[b.len()..];
+    let declared = (fam.declared)(b);
     for (pn, p) in &fam.parsers {
         obs.evals_add(1);
-        let (rb, rbx) = guard(pn, || (p(&b), p(&bx)))?;
+        let (rb, rbx) = guard(pn, || (p(b), p(bx)))?;
         match (&rb, &rbx) {
             (Run::Ok(a), _) => {
                 let consumed = b.len() - a.rem_len;
